@@ -5,6 +5,9 @@
    * CLoop: a forest that graph.compile rejected because validateDAG found a control cycle: the model's
      validate_dag (Model/DagValidate.v) must reject it too; every forest of a CGraph case compiled, so the
      model must accept it;
+   * CFamily: the same graph and input with the branch tables replaced by every combination of constant
+     outcomes (single branches: each end; multi branches over two ends: every subset), each member compared
+     like a CGraph case — exhaustive over the branch outcomes of that graph;
    * CChan: white box — a real dagChannel (built by dagChannelBuilder through the hook
      compose/verif_c02.go) driven with a sequence of operations; the full channel state observed after
      every operation is compared with the model channel of Model/Graph.v. *)
@@ -27,6 +30,7 @@ Record chan_obs := {
 Inductive ccase :=
 | CGraph (c : gcase)
 | CLoop (F : list gdef)          (* Compile rejected the forest with "DAG invalid, node[..] has loop" *)
+| CFamily (cs : list gcase)      (* one graph run under EVERY combination of outcomes of its branches *)
 | CChan (ctrl data : list key) (ops : list (chan_op * chan_obs)).
 
 Definition tchan := chan value.
@@ -118,6 +122,7 @@ Definition bad (c : ccase) : bool :=
   match c with
   | CGraph g => negb (gcase_ok_c02 g) || negb (forest_dag_valid (lower_forest (gc_forest g)))   (* it compiled *)
   | CLoop F => forest_dag_valid (lower_forest F)
+  | CFamily gs => existsb (fun g => negb (gcase_ok_c02 g) || negb (forest_dag_valid (lower_forest (gc_forest g)))) gs
   | CChan ctrl data ops => negb (chan_trace_ok (chan0 ctrl data) ops)
   end.
 Definition mismatches (cs : list ccase) : list nat := mismatches_from bad 0 cs.
